@@ -54,6 +54,8 @@ type AuditEntry struct {
 	Func      string `json:"func"`
 	Construct string `json:"construct"`
 	Reason    string `json:"reason"`
+	// Members: for an audited recursion cycle, every member on the audited tree (the construct shows three)
+	Members []string `json:"members,omitempty"`
 }
 
 type FindingEntry struct {
@@ -204,6 +206,11 @@ func composedAudit(c *Ctx, o *Obligation, t *Tables) (string, bool) {
 			if !strings.HasPrefix(nm, "+") {
 				audited[nm] = k
 			}
+		}
+		// a cycle that lost members (a validator that no longer applies a nested constraint) is the
+		// audited recursion with an edge removed
+		for _, nm := range e.Members {
+			audited[closureSuffix.ReplaceAllString(nm, "")] = k
 		}
 	}
 	used := map[string]bool{}
